@@ -15,11 +15,13 @@ EXTENDS Naturals, Sequences, FiniteSets, TLC, Json, IOUtils, SequencesExt
 
 KS == <<"argparse", "class", "function">>
 K  == {"argparse", "class", "function"}
+\* a history may have a second file of the truth's kind ("twin", Sync.tla Twin = TRUE): an ordinary target
 
 Traces == IF "TRACE_FILE" \in DOMAIN IOEnv THEN ndJsonDeserialize(IOEnv.TRACE_FILE) ELSE <<>>
 VARIABLES tid, l, cur, stable
 tvars == <<tid, l, cur, stable>>
 T == Traces[tid]
+Files == KS \o (IF "twin" \in DOMAIN T.init THEN <<"twin">> ELSE <<>>)
 Given == {T.given[i] : i \in 1..Len(T.given)}
 
 \* the frame of a file: every statement around the named definition, in order
@@ -34,8 +36,8 @@ Cl(name, k, ok) == <<name, k, ok>>
 SyncClauses(e) ==
   LET b == cur  a == e.post  v == cur[T.truth].d  clean == e.exc = "none" /\ e.fault = "none" IN
   << Cl("NoInternalError", "-", e.fault # "none" \/ e.exc = "none") >>
-  \o FlattenSeq([i \in 1..3 |->
-       LET k == KS[i] IN
+  \o FlattenSeq([i \in 1..Len(Files) |->
+       LET k == Files[i] IN
        << Cl("TruthUntouched", k, k # T.truth \/ ~e.changed[k]),
           Cl("Untouched", k, k \in Given \/ ~e.changed[k]),
           Cl("StillParses", k, a[k].st # "partial"),
